@@ -350,6 +350,13 @@ static int get_operands(
   {
     if (strcasecmp(instr_case + 4, "sar") == 0)
     {
+      // The register this adds needs a place in operands[] too.
+      if (operand_count == MAX_OPERANDS)
+      {
+        print_error_opcount(asm_context, instr_case);
+        return -1;
+      }
+
       instr_case[3] = 0;
       operands[operand_count].type = OPERAND_REGISTER_SAR;
       operands[operand_count].value = 3;
